@@ -138,6 +138,15 @@ def run(ctx):
             o1 = fn_origins(f, c.args[1], 'adapters')
             o2 = fn_origins(f, c.args[2], True)
             ok = has(o0, 'p#2') and has(o1, 'pty:*.security_parameter') and has(o2, 'pty:*.step')
+            # the security parameter reaches the formula as configured: not rounded, scaled or otherwise recomputed
+            d1 = fn_origins(f, c.args[1], False)
+            recomputed = sorted(o for o in d1 if o.startswith('call:') and not any(o.endswith(x) for x in ('::clone', '::deref', '::borrow', '::as_ref', '::to_owned')))
+            inst_sp = '%s: the security parameter reaches the formula unmodified' % fn_short(fn)
+            if has(d1, 'pty:*.security_parameter') and not recomputed:
+                R.ok('c', 'R5', inst_sp, '', f.loc())
+            else:
+                R.violation('c', 'R5', inst_sp, 'beacon:security-parameter:%s' % fn_short(fn), 'the margin handed to the formula is recomputed by %s: the selected '
+                            'block can exceed tip - security_parameter' % (recomputed[:3] or sorted(d1)[:3]), f.loc())
             if fn == TXC:
                 ok = ok and has(o2, 'call:std::cmp::max') and has(o2, 'call:*BlockRange::from_block_number')
             inst = '%s: formula(tip, self.security_parameter, %s)' % (fn_short(fn), 'max(range_start(step), LENGTH)' if fn == TXC else 'self.step')
@@ -145,46 +154,58 @@ def run(ctx):
                 R.ok('c', 'R5', inst, '', f.loc())
             else:
                 R.violation('c', 'R5', inst, 'beacon:formula-args:%s' % fn_short(fn), '', f.loc())
-    # ---- (c) the formula
+    # ---- (c) the formula (stated on data flow, not on one way of writing the rounding)
     ff = ctx.try_fn('c', FREE)
     if ff is not None:
+        from engine import origins
         body = ff.body
-        names = [c.best() for c in body.calls()]
+        SUBP = ('*std::ops::arith::Sub*::sub', '*::saturating_sub', '*::checked_sub')
+        DIVP = ('*std::ops::arith::Div*::div', '*std::ops::arith::Rem*::rem')
         raw = []
         for b in body.blocks:
             for (line, pl, rv) in b.stmts:
-                if rv[0] == 'bin' and rv[1] in ('Sub', 'SubWithOverflow', 'Div', 'Rem'):
+                if rv[0] == 'bin' and rv[1] in ('Sub', 'SubWithOverflow', 'Div', 'Rem', 'Mul', 'MulWithOverflow', 'Add', 'AddWithOverflow'):
                     raw.append('%s@L%d' % (rv[1], line))
-        subs = [c for c in body.calls() if any(glob_match('*std::ops::arith::Sub*::sub', n) for n in c.names())]
-        divs = [c for c in body.calls() if any(glob_match('*std::ops::arith::Div*::div', n) for n in c.names())]
-        mxs = [c for c in body.calls() if any(glob_match('std::cmp::max', n) or glob_match('*::Ord>::max', n) or glob_match('std::cmp::Ord::max', n) for n in c.names())]
+        subs = [c for c in body.calls() if any(glob_match(p_, n) for n in c.names() for p_ in SUBP)]
+        divs = [c for c in body.calls() if any(glob_match(p_, n) for n in c.names() for p_ in DIVP)]
+        margin = [c for c in subs if len(c.args) == 2 and has(fn_origins(ff, c.args[0], 'adapters'), 'p#1') and has(fn_origins(ff, c.args[1], 'adapters'), 'p#2')]
         problems = []
         if raw:
-            problems.append('raw integer %s in the formula' % raw)
-        if not subs or not divs or not mxs:
-            problems.append('sub calls %d, div calls %d, max calls %d' % (len(subs), len(divs), len(mxs)))
-        # Sub resolves to a wrapper impl whose closure ends in saturating_sub
+            problems.append('raw integer %s in the formula (overflow / division by zero panics)' % raw)
+        if not margin:
+            problems.append('no `block_number - security_parameter` subtraction')
         for c in subs:
+            if any(glob_match('*::saturating_sub', n) or glob_match('*::checked_sub', n) for n in c.names()):
+                continue
             tgt = [g for n in c.names() for g in ws.by_name.get(n, [])]
             seen, ext = closure(ws, tgt)
             if not any(glob_match('*::saturating_sub', n) for n in ext):
-                problems.append('the subtraction %s does not end in saturating_sub' % fn_short(c.best()))
-            o0 = fn_origins(ff, c.args[0], 'adapters')
-            o1 = fn_origins(ff, c.args[1], 'adapters')
-            if not (has(o0, 'p#1') and has(o1, 'p#2')):
-                problems.append('subtraction operands are not (block_number, security_parameter)')
+                problems.append('the subtraction %s (line %s) does not end in saturating_sub' % (fn_short(c.best()), c.line))
+        # every returned value has passed the margin subtraction: cut the slice at it, the tip must not be reachable
+        if margin:
+            mids = {id(c) for c in margin}
+            for l in sorted(body.ret_carriers()):
+                og = origins(body, l, True, call_filter=lambda c: id(c) not in mids)
+                if has(og, 'p#1') or has(og, 'p#1.*'):
+                    problems.append('the chain tip reaches the returned value without passing `tip - security_parameter` (a path returns a value above the margin)')
+                    break
+            og_all = set()
+            for l in body.ret_carriers():
+                og_all |= origins(body, l, True)
+            if not has(og_all, 'p#3') and not has(og_all, 'p#3.*'):
+                problems.append('the step does not influence the result')
+        # a division / remainder by the step cannot see a zero divisor
         for c in divs:
             o1 = fn_origins(ff, c.args[1], True)
-            if not (has(o1, 'call:std::cmp::max') or has(o1, 'call:*::max')):
-                problems.append('the divisor does not derive from max(step, 1)')
-        for c in mxs:
-            ok1 = any(ff.body.const_of(a) == 1 or has(fn_origins(ff, a, True), 'const:1*') or has(fn_origins(ff, a, True), 'adt:*BlockNumber*') for a in c.args)
-            if not (has(fn_origins(ff, c.args[0], True) | fn_origins(ff, c.args[1], True), 'p#3') and ok1):
-                problems.append('max() is not max(step, 1)')
+            mx = [m for m in body.calls() if any(glob_match('std::cmp::max', n) or glob_match('*::Ord>::max', n) or glob_match('std::cmp::Ord::max', n) for n in m.names())
+                  and any(body.const_of(a) == 1 or has(fn_origins(ff, a, True), 'const:1*') or has(fn_origins(ff, a, True), 'adt:*BlockNumber*') for a in m.args)]
+            if not ((has(o1, 'call:std::cmp::max') or has(o1, 'call:*::max')) and mx):
+                problems.append('the divisor of %s (line %s) is not floored at 1 (step = 0 would panic)' % (fn_short(c.best()), c.line))
+        inst = 'compute_block_number_to_be_signed: every result passes the saturating `tip - security_parameter`; no division by a zero step'
         if problems:
-            R.violation('c', 'R7', 'compute_block_number_to_be_signed: saturating subtraction, divisor = max(step, 1)', 'beacon:formula', '; '.join(problems), ff.loc())
+            R.violation('c', 'R7', inst, 'beacon:formula', '; '.join(problems), ff.loc())
         else:
-            R.ok('c', 'R7', 'compute_block_number_to_be_signed: saturating subtraction, divisor = max(step, 1)', '', ff.loc())
+            R.ok('c', 'R7', inst, '%d subtraction(s), %d division(s)' % (len(subs), len(divs)), ff.loc())
     tx = ctx.try_fn('c', TXC)
     if tx is not None:
         subs = [c for c in tx.body.calls() if any(glob_match('*std::ops::arith::Sub*::sub', n) for n in c.names())]
